@@ -32,12 +32,21 @@ SCALAR = {"e": "f32", "d": []}
 
 # ----------------------------------------------------------------------------- types
 def ty_str(ty) -> str:
-    """Canonical rendering of an abstract type: '<onnx elem code>:[d0,d1,…]' ('?' = unknown dim)."""
+    """Canonical rendering of an abstract type: '<onnx elem code>:[d0,d1,…]' ('?' = unknown dim),
+    'seq(T)' and 'opt(T)' for sequence and optional types."""
+    if "seq" in ty:
+        return "seq(" + ty_str(ty["seq"]) + ")"
+    if "opt" in ty:
+        return "opt(" + ty_str(ty["opt"]) + ")"
     return f"{ELEMS[ty['e']][1]}:[" + ",".join("?" if d is None else str(d) for d in ty["d"]) + "]"
 
 
 def proto_ty_str(tp) -> str:
-    """The same rendering of an onnx TypeProto (tensor types only)."""
+    """The same rendering of an onnx TypeProto."""
+    if tp.HasField("sequence_type"):
+        return "seq(" + proto_ty_str(tp.sequence_type.elem_type) + ")"
+    if tp.HasField("optional_type"):
+        return "opt(" + proto_ty_str(tp.optional_type.elem_type) + ")"
     if not tp.HasField("tensor_type"):
         return "non-tensor"
     tt = tp.tensor_type
@@ -54,13 +63,22 @@ def proto_ty_str(tp) -> str:
     return f"{tt.elem_type}:[" + ",".join(dims) + "]"
 
 
-def gen_type(rng: random.Random):
+def gen_type(rng: random.Random, tensor_only=False):
+    r = rng.random()
+    if not tensor_only and r < 0.10:
+        return {"seq": gen_type(rng, True)}
+    if not tensor_only and r < 0.17:
+        return {"opt": gen_type(rng, True) if rng.random() < 0.7 else {"seq": gen_type(rng, True)}}
     e = rng.choice(list(ELEMS))
     rank = rng.choice([0, 1, 1, 2, 2, 3])
-    return {"e": e, "d": [rng.choice([1, 2, 3, "N", "M", "K", None]) for _ in range(rank)]}
+    return {"e": e, "d": [rng.choice([0, 1, 1, 2, 3, "N", "M", "K", None, None]) for _ in range(rank)]}
 
 
 def feed_for(ty, rng: random.Random):
+    if "seq" in ty:
+        return [feed_for(ty["seq"], rng) for _ in range(rng.randrange(1, 4))]
+    if "opt" in ty:
+        return feed_for(ty["opt"], rng) if rng.random() < 0.6 else None
     shape = [SYM[d] if isinstance(d, str) else (2 if d is None else d) for d in ty["d"]]
     dt = ELEMS[ty["e"]][0]
     n = int(np.prod(shape)) if shape else 1
@@ -74,8 +92,23 @@ def feed_for(ty, rng: random.Random):
 
 
 # ----------------------------------------------------------------------------- generation
+CUSTOM_DOMAINS = [("verif.alpha", 1), ("org.verif.beta", 2), ("zeta.custom", 3)]
+
+
+def custom_model(j: int):
+    """A one-node model whose node lives in a custom operator domain (cannot be run, can be built)."""
+    from onnx import TensorProto as T
+    from onnx import helper as h
+
+    dom, ver = CUSTOM_DOMAINS[j]
+    g = h.make_graph([h.make_node("Twice", ["x"], ["z"], domain=dom, name="cust")], f"cust{j}",
+                     [h.make_tensor_value_info("x", T.FLOAT, [])], [h.make_tensor_value_info("z", T.FLOAT, [])])
+    return h.make_model(g, opset_imports=[h.make_opsetid("", 17), h.make_opsetid(dom, ver)], ir_version=8)
+
+
 class _Gen:
-    def __init__(self, rng, max_depth):
+    def __init__(self, rng, max_depth, domains=False):
+        self.domains = domains
         self.rng = rng
         self.n = 0
         self.max_depth = max_depth
@@ -97,6 +130,12 @@ class _Gen:
             r = rng.random()
             if pending and rng.random() < 0.7:
                 nd = self.new({"k": "lift", "a": pending.pop()})
+            elif r < 0.05 and depth == 0 and [i for i in vis_any if self.info[i]["k"] == "arg" and "e" in self.info[i]["ty"]]:
+                # a non-scalar value: Cast(argument) keeps the argument's dims (constant, zero, symbolic, unknown)
+                nd = self.new({"k": "tcast", "a": rng.choice([i for i in vis_any if self.info[i]["k"] == "arg" and "e" in self.info[i]["ty"]])})
+                nodes.append(nd)
+                vis_any.append(nd["id"])
+                continue
             elif r < 0.25 and vis_any:
                 nd = self.new({"k": "lift", "a": rng.choice(vis_any)})
             elif r < 0.30:
@@ -105,6 +144,12 @@ class _Gen:
                 nd = self.new({"k": rng.choice(["add", "mul"]), "a": rng.choice(vis_sc), "b": rng.choice(vis_sc)})
             elif r < 0.60 and vis_sc:
                 nd = self.new({"k": "neg", "a": rng.choice(vis_sc)})
+            elif self.domains and r < 0.75 and vis_sc:
+                # several operator domains in one model: ai.onnx.ml and custom domains (through inlined models)
+                if rng.random() < 0.4:
+                    nd = self.new({"k": "bin", "a": rng.choice(vis_sc)})
+                else:
+                    nd = self.new({"k": "cust", "a": rng.choice(vis_sc), "j": rng.randrange(len(CUSTOM_DOMAINS))})
             elif r < 0.63 and vis_sc:
                 nd = self.new({"k": "bin", "a": rng.choice(vis_sc)})  # ai.onnx.ml Binarizer: a second opset domain
             elif r < 0.82 and vis_sc and depth < self.max_depth:
@@ -129,8 +174,8 @@ class _Gen:
                 nd = self.new({"k": "const", "v": 1.0})
             nodes.append(nd)
             vis_sc.append(nd["id"])
-        own_sc = [n["id"] for n in nodes]
-        res = [rng.choice(own_sc)] if own_sc and rng.random() < 0.85 else [rng.choice(vis_sc)]
+        own_sc = [n["id"] for n in nodes if n["k"] != "tcast"]
+        res = [rng.choice(own_sc)] if own_sc and (rng.random() < 0.85 or not vis_sc) else [rng.choice(vis_sc)] if vis_sc else []
         return {"formals": formals or [], "nodes": nodes, "res": res}
 
     def _some_args(self, vis_any):
@@ -139,9 +184,10 @@ class _Gen:
         return args[: self.rng.choice([0, 0, 1, 1, 2])]
 
 
-def gen_program(rng: random.Random, n_args=None, size=None, max_depth=3):
-    """A random program. Arguments are created first, interleaved with a few other top-level values."""
-    g = _Gen(rng, max_depth)
+def gen_program(rng: random.Random, n_args=None, size=None, max_depth=3, domains=False):
+    """A random program. Arguments are created first, interleaved with a few other top-level values.
+    `domains`: also use operators of custom domains (such programs cannot be run by a runtime)."""
+    g = _Gen(rng, max_depth, domains)
     n_args = (rng.randrange(1, 7) if rng.random() < 0.9 else rng.randrange(7, 11)) if n_args is None else n_args
     size = rng.randrange(1, 9) if size is None else size
     top = []
@@ -153,11 +199,40 @@ def gen_program(rng: random.Random, n_args=None, size=None, max_depth=3):
     scs = [n["id"] for n in top if n["k"] != "arg"]
     blk = g.block(0, args, scs, size, [], [])
     top.extend(blk["nodes"])
+    if rng.random() < 0.3:
+        # model-local functions (spox Function nodes: own FunctionProto, domain, opset imports). Made last, so
+        # no subgraph body refers to them (runtimes refuse functions that are only used inside a body)
+        scal = [n["id"] for n in top if n["k"] not in ("arg", "tcast")]
+        for _ in range(rng.randrange(1, 3)):
+            if scal:
+                top.append(g.new({"k": "fun", "f": rng.randrange(2), "a": rng.choice(scal), "b": rng.choice(scal)}))
+                scal.append(top[-1]["id"])
+    multi = None
+    if domains:
+        # one value that needs several operator domains at once: "" + ai.onnx.ml + 1-3 custom domains
+        scal = [n["id"] for n in top if n["k"] not in ("arg", "tcast")]
+        if not scal:
+            top.append(g.new({"k": "const", "v": 1.0}))
+            scal = [top[-1]["id"]]
+        parts = []
+        if rng.random() < 0.8:
+            top.append(g.new({"k": "bin", "a": rng.choice(scal)}))
+            parts.append(top[-1]["id"])
+        for j in rng.sample(range(len(CUSTOM_DOMAINS)), rng.randrange(1, len(CUSTOM_DOMAINS) + 1)):
+            top.append(g.new({"k": "cust", "a": rng.choice(scal), "j": j}))
+            parts.append(top[-1]["id"])
+        multi = parts[0]
+        for p_ in parts[1:]:
+            top.append(g.new({"k": "add", "a": multi, "b": p_}))
+            multi = top[-1]["id"]
     if rng.random() < 0.5:
         top.append(g.new({"k": "init", "ty": {"e": rng.choice(["f32", "i64"]), "d": [2]}}))
     if rng.random() < 0.5:
         top.append(g.new({"k": "junk", "v": rng.choice([3, None, "s", 2.5])}))
-    return {"nodes": top, "n": g.n}
+    prog = {"nodes": top, "n": g.n}
+    if multi is not None:
+        prog["multi"] = multi
+    return prog
 
 
 def walk(nodes):
@@ -196,6 +271,8 @@ def formal_nodes(prog):
 
 def abstract_type(prog, i):
     nd = index(prog).get(i) or formal_nodes(prog)[i]
+    if nd["k"] == "tcast":
+        return {"e": "f32", "d": list(abstract_type(prog, nd["a"])["d"])}
     return nd["ty"] if nd["k"] in ("arg", "init", "formal") else dict(SCALAR)
 
 
@@ -224,9 +301,9 @@ def free_args(prog, out_ids):
             s = {i}
         elif k in ("const", "init", "junk"):
             s = set()
-        elif k in ("lift", "neg", "bin"):
+        elif k in ("lift", "neg", "bin", "tcast", "cust"):
             s = set(of(nd["a"]))
-        elif k in ("add", "mul"):
+        elif k in ("add", "mul", "fun"):
             s = of(nd["a"]) | of(nd["b"])
         elif k == "if":
             s = of(nd["a"]) | of(nd["b"]) | of_block(nd["then"]) | of_block(nd["else"])
@@ -293,6 +370,19 @@ def to_objs(prog):
 
 
 # ----------------------------------------------------------------------------- realisation with the real constructors
+def lift_var(op, v):
+    """An f32 scalar that depends on `v`, whatever its type: sum of a tensor's elements, length of a
+    sequence, presence of an optional."""
+    import spox
+
+    t = v.type
+    if isinstance(t, spox.Sequence):
+        return op.cast(op.sequence_length(v), to=np.float32)
+    if isinstance(t, spox.Optional):
+        return op.cast(op.optional_has_element(v), to=np.float32)
+    return op.reduce_sum(op.cast(v, to=np.float32), keepdims=0)
+
+
 def realize(prog, op=None):
     """Create the program with the real spox constructors. Returns {id: Var-or-junk}."""
     import spox
@@ -300,8 +390,25 @@ def realize(prog, op=None):
     if op is None:
         import spox.opset.ai.onnx.v17 as op
     env = {}
+    funcs = {}
+
+    def function(j):
+        """F0(a, b) = a*b + a, F1(a, b) = -a + b, as ONNX functions when this tree can make them."""
+        if j not in funcs:
+            body = (lambda a, b: [op.add(op.mul(a, b), a)]) if j == 0 else (lambda a, b: [op.add(op.neg(a), b)])
+            try:
+                from spox._function import to_function
+
+                funcs[j] = to_function(f"F{j}", "verif.func")(body)
+            except Exception:  # noqa: BLE001 - no such helper on this tree: plain operators instead
+                funcs[j] = body
+        return funcs[j]
 
     def tensor(ty):
+        if "seq" in ty:
+            return spox.Sequence(tensor(ty["seq"]))
+        if "opt" in ty:
+            return spox.Optional(tensor(ty["opt"]))
         return spox.Tensor(ELEMS[ty["e"]][0], tuple(ty["d"]))
 
     def block_results(blk):
@@ -320,13 +427,19 @@ def realize(prog, op=None):
             elif k == "const":
                 env[i] = op.const(np.float32(nd["v"]))
             elif k == "lift":
-                env[i] = op.reduce_sum(op.cast(env[nd["a"]], to=np.float32), keepdims=0)
+                env[i] = lift_var(op, env[nd["a"]])
+            elif k == "tcast":
+                env[i] = op.cast(env[nd["a"]], to=np.float32)
             elif k == "add":
                 env[i] = op.add(env[nd["a"]], env[nd["b"]])
             elif k == "mul":
                 env[i] = op.mul(env[nd["a"]], env[nd["b"]])
             elif k == "neg":
                 env[i] = op.neg(env[nd["a"]])
+            elif k == "fun":
+                (env[i],) = function(nd["f"])(env[nd["a"]], env[nd["b"]])
+            elif k == "cust":
+                env[i] = spox.inline(custom_model(nd["j"]))(x=env[nd["a"]])["z"]
             elif k == "bin":
                 import spox.opset.ai.onnx.ml.v3 as ml
 
@@ -371,13 +484,27 @@ def evaluate(prog, feeds, out_ids):
         elif k == "const":
             v = np.float32(nd["v"])
         elif k == "lift":
-            v = np.float32(np.asarray(ev(nd["a"], env)).astype(np.float32).sum())
+            x = ev(nd["a"], env)
+            ta = abstract_type(prog, nd["a"])
+            if "seq" in ta:
+                v = np.float32(len(x))
+            elif "opt" in ta:
+                v = np.float32(0.0 if x is None else 1.0)
+            else:
+                v = np.float32(np.asarray(x).astype(np.float32).sum())
+        elif k == "tcast":
+            v = np.asarray(ev(nd["a"], env)).astype(np.float32)
         elif k == "add":
             v = np.float32(ev(nd["a"], env) + ev(nd["b"], env))
         elif k == "mul":
             v = np.float32(ev(nd["a"], env) * ev(nd["b"], env))
         elif k == "neg":
             v = np.float32(-ev(nd["a"], env))
+        elif k == "fun":
+            a_, b_ = ev(nd["a"], env), ev(nd["b"], env)
+            v = np.float32(a_ * b_ + a_) if nd["f"] == 0 else np.float32(-a_ + b_)
+        elif k == "cust":
+            raise ValueError("custom-domain operators have no reference semantics")
         elif k == "bin":
             v = np.float32(1.0 if ev(nd["a"], env) > 0.5 else 0.0)
         elif k == "if":
@@ -418,7 +545,8 @@ def gen_request(rng: random.Random, prog, *, allow_bad=True, allow_dup=False):
     inits = [n["id"] for n in top if n["k"] == "init"]
     junk = [n["id"] for n in top if n["k"] == "junk"]
     n_out = rng.choice([1, 1, 2, 3])
-    pool = vals * 3 + args  # an argument passed straight through as an output is allowed
+    # (onnxruntime refuses Identity on optional types, so optional arguments are not passed straight through)
+    pool = vals * 3 + [n["id"] for n in top if n["k"] == "arg" and "opt" not in n["ty"]] + [n["id"] for n in top if n["k"] == "tcast"] * 3  # an argument passed straight through as an output is allowed
     outs = []
     for _ in range(n_out):
         c = rng.choice(pool)
@@ -459,6 +587,53 @@ def gen_request(rng: random.Random, prog, *, allow_bad=True, allow_dup=False):
     return {"inputs": inputs, "outputs": outputs, "drop": rng.random() < 0.5, "kind": kind}
 
 
+def gen_stale_name_pair(rng: random.Random, prog):
+    """Two requests over the same Vars: one that fails *inside* build (after the inputs were
+    temporarily renamed), then one with drop_unused_inputs=True that uses an argument of the first
+    without listing it and gives that argument's old key to an unused argument. The second must raise
+    KeyError; it only does if the first build left no names behind. None if the program has no
+    suitable outputs."""
+    top = top_level(prog)
+    args = [n["id"] for n in top if n["k"] == "arg"]
+    vals = [n["id"] for n in top if n["k"] not in ("arg", "init", "junk")]
+    if len(args) < 2 or not vals:
+        return None
+    for _ in range(12):
+        outs = rng.sample(vals, min(len(vals), rng.choice([1, 1, 2])))
+        used = sorted(free_args(prog, outs))
+        unused = [a for a in args if a not in used]
+        if used and unused:
+            break
+    else:
+        return None
+    keys = [f"x{j}" for j in range(len(args))] + ["in_a", "data", "Z", "arg"]
+    rng.shuffle(keys)
+    order = list(args)
+    rng.shuffle(order)
+    name_of = {a: keys[j] for j, a in enumerate(order)}
+    a = rng.choice(used)
+    b = rng.choice(unused)
+    how = rng.choice(["clash", "dup", "missing"] if len(used) >= 2 else ["clash", "dup"])
+    first = {"inputs": [[name_of[x], x] for x in order], "outputs": [[f"y{j}", o] for j, o in enumerate(outs)],
+             "drop": rng.random() < 0.5, "kind": "fail-inside:" + how}
+    if how == "clash":
+        first["outputs"][0][0] = name_of[rng.choice(used)]  # ScopeError when the results are named
+    elif how == "dup":
+        first["inputs"].append(["dup_key", rng.choice(order)])
+        first["drop"] = False                                # ScopeError when the arguments are introduced
+    else:
+        m = rng.choice([u for u in used if u != a])
+        first["inputs"] = [e for e in first["inputs"] if e[1] != m]
+        first["drop"] = False                                # KeyError from the scope lookup, inside the block
+    rest = [x for x in order if x not in (a, b)]
+    rng.shuffle(rest)
+    second_inputs = [[name_of[a], b]] + [[name_of[x] if rng.random() < 0.5 else "n_" + name_of[x], x] for x in rest]
+    rng.shuffle(second_inputs)
+    second = {"inputs": second_inputs, "outputs": [[f"r{j}", o] for j, o in enumerate(outs)],
+              "drop": True, "kind": "stale-followup"}
+    return first, second
+
+
 def expected(prog, req):
     """What the property prescribes for a request (None where it is silent).
 
@@ -471,6 +646,8 @@ def expected(prog, req):
     in_ids = [i for _, i in req["inputs"]]
     if len(set(in_ids)) != len(in_ids) or not outs:
         return None  # one Var under two keys / no outputs: the property does not say
+    if {n for n, _ in req["outputs"]} & {n for n, _ in req["inputs"]}:
+        return None  # an output named like an input: not a request the property talks about
     used = free_args(prog, [i for _, i in req["outputs"]])
     if not used <= set(in_ids):
         return ("err", "Key")
